@@ -73,18 +73,14 @@ def alphabet(desc):
     return sorted(chars)
 
 
-def group(inputs, per=12, node=True, root=None):
-    """op lines for a list of inputs (bytes)"""
+def group(inputs):
+    """op lines for a list of inputs: events, then the tree built in an empty target"""
     lines = []
     for inp in inputs:
         lines.append("p input " + hx(inp))
         lines.append("p config")
-        if node:
-            if root:
-                lines.append("p root " + root)
-            lines.append("p node")
-            if root is None:
-                lines.append("p root .")
+        lines.append("p root .")
+        lines.append("p node")
     return lines
 
 
@@ -109,9 +105,165 @@ def exhaustive(tier):
     return out
 
 
+def long_tokens(tier):
+    out = []
+    lens = [254, 255, 256, 257]
+    if tier != "quick":
+        lens += [65534, 65535, 65536, 65537]
+    for L in lens:
+        N = "n" * L
+        cases = [
+            ("pre-default", None, ["%s=1\n" % N, "a=%s\n" % N, "%s {\nb=2\n}\n" % N, "a=\"%s\"\n" % N,
+                                   "a {\nb=%s\n}\nc=3\n" % N, "%s\n{\n}\n" % N, "a=x %s y\n" % (" " * L)]),
+            ("pre-semi", "{*} =;!#", ["%s=1;" % N, "a=%s;" % N, "%s{b=2;}" % N, "%s;" % N, "a{%s;}" % N]),
+            ("sep", "[ ] = #", ["[%s]\nb=2\n" % N, "[a]\n%s=2\n" % N, "[a]\nb=%s\n" % N, "[%s" % N]),
+            ("enc-same", "|x| = #", ["|%s\nb=2\n|c\n" % N, "|a\n%s=2\n" % N, "|a\nb=%s\n" % N]),
+            ("enc-diff", "{x} =;#", ["{%s\nb=2;" % N, "%s=2;x" % N, "b=%s;x" % N]),
+            ("opt", "._. = #", ["%s=1\n" % N, "a=%s\n" % N, "%s\n" % N]),
+        ]
+        for name, desc, inputs in cases:
+            for flags in ((0xff, 0xff), (0x2f, 0x2f)):
+                for i, inp in enumerate(inputs):
+                    lines = [fmt_line(desc, flags), "p input " + hx(inp), "p config", "p node", "p tree", "p end"]
+                    out.append(("long:%d:%s:%d:%x" % (L, name, i, flags[0]), lines))
+    return out
+
+
+# ---------------------------------------------------------------- grammar-generated files
+NAMES = ["a", "b1", "sec", "x_y", "1st", "n m", "", "k.v", "Z"]
+VALUES = ["1", "two words", "", "x=y", "a#b", "sp #c", "\"q\"", "'s t'", "\"e\\\"q\"", "tr  ", "0"]
+
+
+def _tree(r, depth):
+    n = r.choice([0, 1, 2, 3, 4]) if depth else r.choice([1, 2, 3, 4])
+    items = []
+    for _ in range(n):
+        if depth < 3 and r.random() < 0.4:
+            items.append((r.choice(NAMES), None, _tree(r, depth + 1)))
+        else:
+            items.append((r.choice(NAMES), r.choice(VALUES), None))
+    return items
+
+
+def _ws(r):
+    return r.choice(["", "", " ", "  ", "\t", " \n", "\n\n", " # note\n", "\n#c\n"])
+
+
+def _write(r, items, style, delims, depth=0):
+    ss, se, os_, as_, oe = delims
+    eol = oe if oe else "\n"
+    out = []
+    for name, val, kids in items:
+        if kids is None:
+            out.append("%s%s%s%s%s%s%s" % (_ws(r), os_ or "", name, r.choice(["", " "]), as_ or " ", r.choice(["", " "]) + val, eol))
+        elif style == "pre":
+            out.append("%s%s%s%s%s%s%s%s" % (_ws(r), name, r.choice(["", " ", "\n"]), ss, _ws(r), _write(r, kids, style, delims, depth + 1), _ws(r), se))
+        elif style == "sep":
+            out.append("%s%s%s%s\n%s" % (_ws(r), ss, name, se, _write(r, kids, style, delims, depth + 1)))
+        elif style == "enc":
+            out.append("%s%s%s\n%s%s" % (_ws(r), ss, name, _write(r, kids, style, delims, depth + 1), se if r.random() < 0.5 else ""))
+        else:
+            out.append(_write(r, kids, style, delims, depth + 1))
+    return "".join(out)
+
+
+GRAMMARS = [
+    # (description, style, (sstart, send, ostart, assign, oend))
+    (None, "pre", ("{", "}", "", "=", "")),
+    ("{*} =;!#", "pre", ("{", "}", "", "=", ";")),
+    ("[*] = !", "pre", ("[", "]", "", "=", "")),
+    ("{*}:=;# `", "pre", ("{", "}", ":", "=", ";")),
+    ("(*)  ,%", "pre", ("(", ")", "", "", ",")),
+    ("[ ] = #", "sep", ("[", "]", "", "=", "")),
+    ("/ / =;#", "sep", ("/", "/", "", "=", ";")),
+    ("< >:=\n#", "sep", ("<", ">", ":", "=", "\n")),
+    ("|x| = #", "enc", ("|", "|", "", "=", "")),
+    ("{x} =;#", "enc", ("{", "}", "", "=", ";")),
+    ("@x@:=;#", "enc", ("@", "@", ":", "=", ";")),
+    ("._. = #", "opt", ("", "", "", "=", "")),
+    ("._.:=;# '", "opt", ("", "", ":", "=", ";")),
+    ("._.  \n#", "opt", ("", "", "", "", "")),
+]
+ROOTS = [None, None, None, "61", "61(62=31),63=32", "736563(61=39),736563(7a),62=31", "-(61=31),-=32"]
+
+
+def _mutate(r, text, alpha):
+    b = bytearray(text.encode("latin-1"))
+    for _ in range(r.choice([0, 1, 1, 2, 3])):
+        kind = r.choice(["del", "dup", "flip", "ins", "cut"])
+        if not b:
+            kind = "ins"
+        if kind == "del":
+            del b[r.randrange(len(b))]
+        elif kind == "dup":
+            i = r.randrange(len(b))
+            j = min(len(b), i + r.choice([1, 2, 5, 20]))
+            b[i:i] = b[i:j]
+        elif kind == "flip":
+            b[r.randrange(len(b))] = r.choice(alpha)
+        elif kind == "ins":
+            b.insert(r.randrange(len(b) + 1), r.choice(alpha))
+        else:
+            del b[r.randrange(len(b)):]
+    return bytes(b)
+
+
+def grammar(tier, seed, scale):
+    out = []
+    r = gen.rng(id, tier, seed, "grammar")
+    n = (1500 if tier == "quick" else 12000) * scale
+    per = 6
+    k = 0
+    while k < n:
+        desc, style, delims = r.choice(GRAMMARS)
+        flags = r.choice(FLAGSETS)
+        sig = [ord(c) for c in "".join(delims) + "#!\"'`\\ \n\t=a1."] + [0, 0x80, 0xff, 0x0b]
+        lines = [fmt_line(desc, flags)]
+        for _ in range(per):
+            text = _write(r, _tree(r, 0), style, delims)
+            data = _mutate(r, text, sig) if r.random() < 0.8 else text.encode("latin-1")
+            end = " err" if r.random() < 0.08 else ""
+            lines.append("p input %s%s" % (hx(data), end))
+            lines.append("p config" + (" fail=%d" % r.randrange(6) if r.random() < 0.1 else ""))
+            root = r.choice(ROOTS)
+            lines.append("p root " + (root or "."))
+            lines.append("p node")
+            if r.random() < 0.2:
+                # parse a second time into the tree just built: merge of a tree with itself
+                lines.append("p node")
+            k += 1
+        lines.append("p end")
+        out.append(("gram:%d" % k, lines))
+    return out
+
+
+def formats(tier, seed, scale):
+    """random format descriptions (delimiter sets, comment and escape lists, odd lengths)"""
+    out = []
+    r = gen.rng(id, tier, seed, "formats")
+    pool = "{}[]()<>|/=:;,!#%\"'` \n\ta1*x_"
+    n = (250 if tier == "quick" else 2500) * scale
+    for k in range(n):
+        ln = r.choice([0, 1, 2, 3, 4, 5, 6, 7, 8, 9, 10, 12, 14, 16])
+        desc = "".join(r.choice(pool) for _ in range(ln))
+        if ln >= 2 and r.random() < 0.8:
+            desc = desc[0] + r.choice("*x _") + desc[2:]
+        alpha = sorted(set(desc + "a1 \n=#"))
+        lines = [fmt_line(desc, r.choice(FLAGSETS))]
+        for _ in range(8):
+            inp = "".join(r.choice(alpha) for _ in range(r.choice([1, 2, 3, 5, 8, 13])))
+            lines += ["p input " + hx(inp), "p config", "p root .", "p node"]
+        lines.append("p end")
+        out.append(("fmt:%d" % k, lines))
+    return out
+
+
 def scripts(tier, seed, scale=1):
     out = []
     out += exhaustive(tier)
+    out += long_tokens(tier)
+    out += grammar(tier, seed, scale)
+    out += formats(tier, seed, scale)
     return out
 
 
